@@ -126,6 +126,24 @@ Definition stmt_stored_settings_used : Prop :=
     decode O finf j = Ok q -> load O finf fmax None j = LoadOk p ->
     pset p = desanitize O finf fmax (pset q).
 
+(** load validates the EFFECTIVE settings -- the ones the solver will be constructed with: the
+    override when one is given, else the desanitised stored ones -- and nothing else about
+    the stored settings beyond their being decodable.  Complete characterisation of load on
+    a decodable file: *)
+Definition stmt_load_validates_effective_settings : Prop :=
+  forall T (O : Ops T) (finf fmax : T) (override : option settings) (j : json) (q : problem),
+    decode O finf j = Ok q ->
+    let eff := choose override (desanitize O finf fmax (pset q)) in
+    load O finf fmax override j
+    = if validate O finf (with_settings q eff) then LoadOk (with_settings q eff) else LoadErr.
+(** consequently, with an override the outcome does not depend on the stored settings at all:
+    two decodable files with the same data give the same result *)
+Definition stmt_override_ignores_stored_settings : Prop :=
+  forall T (O : Ops T) (finf fmax : T) (o : settings) (j j' : json) (q q' : problem),
+    decode O finf j = Ok q -> decode O finf j' = Ok q' ->
+    with_settings q o = with_settings q' o ->
+    load O finf fmax (Some o) j = load O finf fmax (Some o) j'.
+
 (** load never panics: for every document the outcome is Ok or Err *)
 Definition stmt_load_total_no_panic : Prop :=
   forall T (O : Ops T) (finf fmax : T) (override : option settings) (j : json),
